@@ -1,8 +1,15 @@
 #!/bin/sh
 # MANIFEST.setup_cmd — build the Lean models, theorems and the compiled model drivers, offline.
-cd "$(dirname "$0")/lean" || exit 2
-PROPS=$(ls Amoco/Props/*.lean 2>/dev/null | sed 's/\.lean$//; s#/#.#g')
-EXES=$(grep '^name = "' lakefile.toml | sed 's/name = "\(.*\)".*/\1/' | grep -E '^(amoco_driver|drv_)')
-lake build $PROPS $EXES 2>&1 | tail -15
-for e in $EXES; do test -x .lake/build/bin/$e || { echo "driver $e not built"; exit 1; }; done
+# Every check (re)builds what it needs itself; this warms the build so that the checks are fast.
+cd "$(dirname "$0")" || exit 2
+IDS=$(python3 -c "import json;print(' '.join(c['property_id'] for c in json.load(open('MANIFEST.json'))['checks']))")
+cd lean || exit 2
+PROPS=""
+for i in $IDS; do test -f Amoco/Props/$i.lean && PROPS="$PROPS Amoco.Props.$i"; done
+lake build $PROPS amoco_driver 2>&1 | tail -5 || exit 1
+test -x .lake/build/bin/amoco_driver || { echo "driver not built"; exit 1; }
+# the per-core drivers: built one by one, a core still under construction must not block the others
+for e in $(grep '^name = "drv_' lakefile.toml | sed 's/name = "\(.*\)".*/\1/'); do
+  lake build $e >/dev/null 2>&1 && echo "built $e" || echo "NOT built: $e"
+done
 echo setup-ok
